@@ -125,6 +125,19 @@ func c20Faults(x *X, in []byte) {
 			x.Nontrivial()
 		}
 		x.Count("executions_with_injected_failure")
+		// A failed call must leave nothing behind: the next call, on a healthy
+		// writer, succeeds and is deterministic.
+		var h1, h2 bytes.Buffer
+		e1 := format.Format(&h1, blocks)
+		e2 := format.Format(&h2, blocks)
+		if e1 != nil || e2 != nil {
+			x.Fail("error-on-healthy-writer", cfg+",after-failed-call", in, "Format into a bytes.Buffer right after a call whose writer failed returned %v / %v", e1, e2)
+			return
+		}
+		if !bytes.Equal(h1.Bytes(), h2.Bytes()) || !bytes.HasPrefix(h1.Bytes(), sw.buf) {
+			x.Fail("nondeterministic", cfg+",after-failed-call", in, "after a call whose writer failed, two healthy runs wrote %q and %q; the failed call had written %q before the failure", h1.Bytes(), h2.Bytes(), sw.buf)
+			return
+		}
 	} else {
 		if err != nil {
 			x.Fail("error-on-healthy-writer", cfg, in, "Format returned %v although no write failed", err)
